@@ -21,7 +21,7 @@ struct Model {
 }
 
 const TRIGGERS: [&str; 9] = ["()", "u8", "u16", "u32", "U53", "OffsetDateTime", "Vec<u8>", "T", "HashMap<String, u8>"];
-const POSITIONS: [&str; 5] = ["field", "struct-variant-field", "payload", "alias", "generic-argument"];
+const POSITIONS: [&str; 6] = ["field", "struct-variant-field", "payload", "alias", "generic-argument", "skipped-field"];
 
 fn nest(t: &str, depth: usize, rng: &mut Rng) -> String {
     let mut s = t.to_string();
@@ -39,7 +39,7 @@ fn nest(t: &str, depth: usize, rng: &mut Rng) -> String {
 
 fn render(m: &Model, rng: &mut Rng) -> String {
     // only the item that mentions T is generic, so that its backend code alone has to declare the parameter
-    let g = if m.generic && matches!(m.position, "field" | "generic-argument") { "<T>" } else { "" };
+    let g = if m.generic && matches!(m.position, "field" | "generic-argument" | "skipped-field") { "<T>" } else { "" };
     let ty = nest(m.trigger, m.depth, rng);
     let mut extra_fields = String::new();
     if m.combined {
@@ -51,10 +51,13 @@ fn render(m: &Model, rng: &mut Rng) -> String {
     let field_ty = match m.position {
         "field" => ty.clone(),
         "generic-argument" => format!("Wrapper<{ty}>"),
+        // the subject only occurs in a field that is not shared (the typed-id pattern): a parameter of the struct is then
+        // still a parameter of the generated type and has to be declared like any other
+        "skipped-field" => format!("std::marker::PhantomData<{ty}>"),
         _ => "String".to_string(),
     };
     let dflt = if m.default { "#[serde(default)]\n    " } else { "" };
-    s.push_str(&format!("#[typeshare]\npub struct Holder{g} {{\n    pub first: i32,\n    {}pub subject: {field_ty},\n{extra_fields}}}\n\n", if matches!(m.position, "field" | "generic-argument") { dflt } else { "" }));
+    s.push_str(&format!("#[typeshare]\npub struct Holder{g} {{\n    pub first: i32,\n    {}pub subject: {field_ty},\n{extra_fields}}}\n\n", if m.position == "skipped-field" { "#[serde(skip)]\n    " } else if matches!(m.position, "field" | "generic-argument") { dflt } else { "" }));
     let ge = if m.generic && matches!(m.position, "struct-variant-field" | "payload") { "<T>" } else { "" };
     let sv = if m.position == "struct-variant-field" { ty.clone() } else { "bool".into() };
     let pl = if m.position == "payload" { ty.clone() } else { "String".into() };
@@ -397,7 +400,7 @@ pub fn run(ctx: &Ctx) -> (Spec, Report) {
     let _ = std::fs::remove_dir_all(&scratch);
     let spec = Spec {
         level: "exploration",
-        rule: format!("one trigger type out of {{(), u8, u16, u32, U53, OffsetDateTime, mapped Vec<u8>, generic T, HashMap<String,u8>}} at one position out of {{field, struct-variant field, payload, alias, generic argument}} under 0-3 random wrappers (all {n_grid} combinations), then random placements up to depth 4 with other triggers combined; for each backend the names it introduces are collected from the parsed output and must be defined or imported in the same file (Swift CodableVoid, Scala UByte..ULong, Go package selectors / encoding/json, Kotlin serialization imports, TS reviver/replacer pair and its key tests, every Python name via CPython ast + import under stub pydantic); {n_cli} multi-crate Swift runs of the real binary check Codable.swift and {n_py} multi-crate Python runs resolve every name of every generated file separately (the backend object is shared by the files of one run); distinct = (language, trigger, position, depth class, combined?)"),
+        rule: format!("one trigger type out of {{(), u8, u16, u32, U53, OffsetDateTime, mapped Vec<u8>, generic T, HashMap<String,u8>}} at one position out of {{field, struct-variant field, payload, alias, generic argument, skipped field (PhantomData)}} under 0-3 random wrappers (all {n_grid} combinations), then random placements up to depth 4 with other triggers combined; for each backend the names it introduces are collected from the parsed output and must be defined or imported in the same file (Swift CodableVoid, Scala UByte..ULong, Go package selectors / encoding/json, Kotlin serialization imports, TS reviver/replacer pair and its key tests, every Python name via CPython ast + import under stub pydantic); {n_cli} multi-crate Swift runs of the real binary check Codable.swift and {n_py} multi-crate Python runs resolve every name of every generated file separately (the backend object is shared by the files of one run); distinct = (language, trigger, position, depth class, combined?)"),
         assumptions: vec![
             "TypeScript: the decisive form is the weak one (helpers come in pairs and test existing keys); a Date/Uint8Array type without helpers is counted, not reported, because the generated code never uses the helper names itself".into(),
         ],
